@@ -212,7 +212,7 @@ func gen(g *vh.Gen) {
 		if len(h) > 0 {
 			f = strings.Join(h, ",")
 		}
-		g.Emit("seq", g.Pick("mem", "mem::8192", "mem::8192", "mem:5:8192", "file", "file:5"), strconv.Itoa(2+g.Intn(3)), f)
+		g.Emit("seq", g.Pick("mem", "mem::8192", "mem::8192", "mem:5:8192", "file", "file:5", "file:1", "file:2", "mem:1", "file:1"), strconv.Itoa(2+g.Intn(3)), f)
 	}
 	// raw wire: encodings a lenient client may produce (bare LF line ends, LF-only terminator,
 	// missing final newline before the terminator line is impossible on the wire; stray CRs)
